@@ -522,7 +522,10 @@ func (p *parser) readGpos2() *gtab.LookupTable {
 		if !p.optional(itemOr) {
 			break
 		}
-		p.optional(itemEOL)
+		// ExplainGpos starts a class based subtable on a new line, so the
+		// separator can be followed by an empty line.
+		for p.optional(itemEOL) {
+		}
 	}
 
 	return lookup
